@@ -67,7 +67,7 @@ struct MPath {
     std::vector<MProp> props;
     int impl = 0;        // 0 FlexPath, 1 RobustPath
     bool simple = true;  // false: written as polygons (region-compared; unique tag in cell)
-    int nelem = 1;       // parallel elements (non-simple only)
+    int nelem = 1;       // parallel elements (a simple path with several: straight axis-parallel spine only)
     dg_t sep = 0;        // separation between elements
     int join = 0;        // 0 natural, 1 miter, 2 bevel, 3 round
 };
@@ -306,6 +306,9 @@ inline J to_json(const MPath& p) {
         j.set("nelem", p.nelem);
         j.set("sep", p.sep);
         j.set("join", p.join);
+    } else if (p.nelem > 1) {
+        j.set("nelem", p.nelem);  // several parallel elements, each written as a PATH of its own
+        j.set("sep", p.sep);
     }
     return j;
 }
